@@ -7,6 +7,7 @@ import SstModel.Lemmas.Bloom
 import SstModel.Lemmas.Codec
 import SstModel.Lemmas.TableSpec
 import SstModel.Lemmas.CmpLaws
+import SstModel.Lemmas.SpecBlockComplete
 /-
   C05 (writer side), part 1: basic facts used by the layout proof.
   * `writeBlock` on a perfect sink, phrased with `physicalBlock`
@@ -183,16 +184,18 @@ def costs (kvs : List (Bytes × Bytes)) : Nat := (kvs.map cost).sum
 theorem costs_append (a b : List (Bytes × Bytes)) : costs (a ++ b) = costs a + costs b := by
   simp [costs]
 
-/-- size invariant of a builder holding `kvs` -/
+/-- size invariant of a builder holding `kvs`; and (for the Spec bridge of C05) the entry headers of
+    the buffer are exact (`SBC.ExactBody`: the independent decoder reads the same header numbers) -/
 def SzB (b : BlockBuilder) (kvs : List (Bytes × Bytes)) : Prop :=
-  b.buffer.length + 4 * b.restarts.length ≤ costs kvs + 4
+  b.buffer.length + 4 * b.restarts.length ≤ costs kvs + 4 ∧ SBC.ExactBody b
 
-theorem szB_new (ri : Nat) : SzB (BlockBuilder.new ri) [] := by
-  simp [SzB, BlockBuilder.new, costs]
+theorem szB_new (ri : Nat) : SzB (BlockBuilder.new ri) [] :=
+  ⟨by simp [BlockBuilder.new, costs], SBC.exact_new ri⟩
 
 theorem szB_add {cmp : Cmp} {b b' : BlockBuilder} {kvs : List (Bytes × Bytes)} {key val : Bytes}
     (h : b.add cmp key val = .ok b') (hsz : SzB b kvs) : SzB b' (kvs ++ [(key, val)]) := by
-  unfold SzB at *
+  refine ⟨?_, SBC.add_exact cmp b b' key val h hsz.2⟩
+  replace hsz := hsz.1
   rw [costs_append]
   have hc : costs [(key, val)] = cost (key, val) := by simp [costs]
   rw [hc]
@@ -224,7 +227,7 @@ theorem szB_add {cmp : Cmp} {b b' : BlockBuilder} {kvs : List (Bytes × Bytes)} 
 
 theorem finish_length_le {b : BlockBuilder} {kvs : List (Bytes × Bytes)} (h : SzB b kvs) :
     b.finish.length ≤ costs kvs + 8 := by
-  rw [BlockBuild.finish_length]; unfold SzB at h; omega
+  rw [BlockBuild.finish_length]; have := h.1; omega
 
 /-- `add` onto a builder in state `Inv`: success, invariant, size -/
 theorem bb_add (cmp : Cmp) (ri : Nat) (hri : 1 ≤ ri) (b : BlockBuilder)
